@@ -247,6 +247,8 @@ def campaign_swap(ctx):
     def cases(draw):
         kind = draw(st.sampled_from(kinds))
         n = draw(st.integers(1, 16))
+        if kind in ("byteswapped-bytes", "bitsswapped-bytes") and draw(st.integers(0, 7)) == 0:
+            n = 0       # a transformed region of no bytes at all: takes nothing from the stream, whatever follows it
         data = draw(st.binary(min_size=n, max_size=n))
         return [kind, n, data, draw(st.binary(max_size=3))]
     ctx.search(cases(), orc, ctx.budget(4800, 30000))
@@ -293,6 +295,14 @@ def comp_oracle(ctx):
         p2 = call(d.parse, lf.build(len(comp)) + comp)
         if not p2.ok or p2.value != data:
             return Failure("C15/compressed/%s/parse" % codec, "parse(prefix + stdlib.compress(x)) -> %r" % (p2,))
+        # streams another tool wrote: several members back to back, or a member followed by other bytes. Whatever the stdlib
+        # codec makes of such a stream (all members joined, the first one only, an error) is what the inner construct gets
+        for foreign in (comp + lib.compress(data[::-1] + b"2nd"), comp + b"xx", comp + comp):
+            want = call(lib.decompress, foreign)
+            pf = call(d.parse, lf.build(len(foreign)) + foreign)
+            ctx.tally("comp/foreign-stream-" + ("decodes" if want.ok else "refused"))
+            if want.ok != pf.ok or (want.ok and pf.value != want.value):
+                return Failure("C15/compressed/%s/foreign-stream" % codec, "parse of a %d-byte stream -> %r, stdlib decompress of the same bytes -> %r" % (len(foreign), pf, want))
         # structured inner sees the decompressed bytes
         d2 = Prefixed(lf, Compressed(Struct("n" / Int8ub, "r" / GreedyBytes), codec, level=level))
         if data:
